@@ -6,7 +6,9 @@
   data answers with the upstream's answer for ITS OWN question.
 -/
 import MosVerif.Lemmas.SystemInv
+import MosVerif.Lemmas.SystemConcrete
 import MosVerif.Model.Listeners
+import MosVerif.Generated.Facts
 namespace MosVerif.C04
 open MosVerif.System
 
@@ -56,5 +58,46 @@ example :
     let f : Key → Val := fun k => k * 10 + 1
     let s := run f (init [7, 8, 7]) [.start 0, .start 1, .reply 1, .reply 0, .start 2, .reply 0]
     s.threads.map (·.stage) = [.done (some 71), .done (some 81), .done (some 71)] := by decide
+
+/-! ### on concrete questions (C04 ∘ C07): the abstract key is the byte string `cacheCtl` builds -/
+
+/-- ★ requests carry a question and the client's group label; the key is the layout `cacheKey` produces for the
+    lower-cased question (`Props/C07.key_layout`). For every interleaving of any number of requests, a request
+    that answers with data answers with the upstream's answer `F` for its own (lower-cased name, class, type,
+    group). -/
+theorem answers_own_question (F : CacheKey.Bytes → Val) (reqs : List SystemConcrete.Req) (steps : List Step)
+    (t : Nat) (th : Thread) (v : Val)
+    (ht : (run (fun k => F (SystemConcrete.dec k)) (init (reqs.map SystemConcrete.keyOf)) steps).threads[t]? = some th)
+    (hd : th.stage = .done (some v)) :
+    ∃ r, reqs[t]? = some r ∧ v = F (SystemConcrete.layoutOf r) :=
+  SystemConcrete.answers_own_concrete F reqs steps t th v ht hd
+
+/-- ★ two requests share cached data exactly when they agree on the lower-cased name, the class, the type and the
+    client group (valid wire names): a query in class CH can never be served the IN answer, nor one client group
+    another group's answer. -/
+theorem share_iff_same_question {r₁ r₂ : SystemConcrete.Req} (h₁ : CacheKey.WfName63 r₁.q.name)
+    (h₂ : CacheKey.WfName63 r₂.q.name) :
+    SystemConcrete.keyOf r₁ = SystemConcrete.keyOf r₂ ↔
+      (CacheKey.toLowerName r₁.q.name = CacheKey.toLowerName r₂.q.name ∧ r₁.q.cls = r₂.q.cls ∧
+        r₁.q.typ = r₂.q.typ ∧ r₁.mark = r₂.mark) :=
+  SystemConcrete.keyOf_eq_iff h₁ h₂
+
+/-- non-vacuity on concrete questions: the same name in class IN and class CH, replies in the opposite order -/
+example :
+    let a : SystemConcrete.Req := ⟨⟨[1, 97], 1, 1⟩, []⟩
+    let b : SystemConcrete.Req := ⟨⟨[1, 65], 3, 1⟩, []⟩      -- "A" in class CH
+    SystemConcrete.keyOf a ≠ SystemConcrete.keyOf b := by decide
+
+/-- tie (pinned source facts, shared with C07): the key the composed model numbers is the one `cacheKey` writes —
+    name, terminator, class, type, group label — and both `Store` and `Get` build it from the lower-cased question
+    and the client's group. -/
+theorem pins :
+    Facts.ck_body = "{ b := pool.GetBuf(len(q.Name) + 1 + 4 + len(mark)) off := copy(b, q.Name) b[off] = 0 off++ binary.BigEndian.PutUint16(b[off:], uint16(q.Class)) off += 2 binary.BigEndian.PutUint16(b[off:], uint16(q.Type)) off += 2 copy(b[off:], []byte(mark)) return b }" ∧
+    Facts.ck_lowerCall = "dnsmsg.ToLowerName(q.Name)" ∧
+    Facts.ck_storeKey = "k := cacheKey(q, mark)" ∧
+    Facts.ck_getKey = "key := cacheKey(q, ipMark)" ∧
+    Facts.ck_storeMark = "mark := c.ipMark(clientAddr)" ∧
+    Facts.ck_getMark = "ipMark := c.ipMark(rc.RemoteAddr.Addr())" := by
+  (repeat' apply And.intro) <;> rfl
 
 end MosVerif.C04
